@@ -343,32 +343,41 @@ def emit_case(case, out):
     exact = E.b(case["grid"])
     parts = []
     t1, f1 = _dump_term(out["map"], case); t2, f2 = _dump_term(out["map2"], case)
-    raw = _raw(case); raw2 = _raw(case, case["perm"])
-    parts.append("check_build %s %s %s %s" % (cm, raw, t1, f1))
-    parts.append("check_build %s %s %s %s" % (cm, raw2, t2, f2))
-    parts.append("check_congr %s %s %s %s %s" % (cm, raw, E.lst(out["congruence"], E.b), E.b(out["is_congruent"]), E.b(out["warned"])))
-    q = _pairs(case["query"])
-    parts.append("check_interp %s %s %s %s %s %s %s" % (exact, cm, raw, q, E.lst(out["q_gen"], _ext), E.lst(out["q_gen"], _fl), E.lst(out["own"], _fl)))
-    parts.append("check_interp %s %s %s %s %s %s %s" % (exact, cm, raw2, q, E.lst(out["q_gen2"], _ext), E.lst(out["q_gen2"], _fl), E.lst(out["own"], _fl)))
+    binds = [("raw", "raw_t", _raw(case)), ("raw2", "raw_t", _raw(case, case["perm"])), ("q", "list (Z * Z)", _pairs(case["query"])),
+             ("sq", "list (Z * Z)", _pairs(out["sq"])), ("own_f", "list float", E.lst(out["own"], _fl)),
+             ("qg", "list ext", E.lst(out["q_gen"], _ext)), ("qgf", "list float", E.lst(out["q_gen"], _fl))]
+    parts.append("check_build %s raw %s %s" % (cm, t1, f1))
+    parts.append("check_build %s raw2 %s %s" % (cm, t2, f2))
+    parts.append("check_congr %s raw %s %s %s" % (cm, E.lst(out["congruence"], E.b), E.b(out["is_congruent"]), E.b(out["warned"])))
+    parts.append("check_interp %s %s raw q qg qgf own_f" % (exact, cm))
+    if out["q_gen2"] == out["q_gen"]:
+        parts.append("check_interp %s %s raw2 q qg qgf own_f" % (exact, cm))
+    else:
+        parts.append("check_interp %s %s raw2 q %s %s own_f" % (exact, cm, E.lst(out["q_gen2"], _ext), E.lst(out["q_gen2"], _fl)))
     ig = out["igmap"]
     igmeta = "(%s, %s, %s, %s)" % tuple(E.lst(m if m is not None else [], E.z) for m in ig["meta"])
-    parts.append("check_igmap %s %s %s %s (%s, %s, %s, %s) %s" % (exact, cm, raw, q, E.lst(ig["chr"], E.z), E.lst(ig["phy"], E.z),
-                 E.lst(ig["gen"], _ext), igmeta, E.lst(out["igmap_spline_keys"], E.z)))
+    parts.append("check_igmap %s %s raw q (%s, %s, %s, %s) %s" % (exact, cm, E.lst(ig["chr"], E.z), E.lst(ig["phy"], E.z),
+                 "qg" if ig["gen"] == out["q_gen"] else E.lst(ig["gen"], _ext), igmeta, E.lst(out["igmap_spline_keys"], E.z)))
     s1, s2, q1, q2 = case["s1"], case["s2"], case["q1"], case["q2"]
-    parts.append("check_gdist_g %s %s %s None None None None None None %s %s %s %s" % (exact, cm, raw, E.lst(out["g1"], _ext), E.lst(out["g1"], _fl),
+    parts.append("check_gdist_g %s %s raw None None None None None None %s %s %s %s" % (exact, cm, E.lst(out["g1"], _ext), E.lst(out["g1"], _fl),
                  E.lst2(out["g2"], _ext), E.lst2(out["g2"], _fl)))
-    parts.append("check_gdist_g %s %s %s %s %s %s %s %s %s %s %s %s %s" % (exact, cm, raw, _oz(s1[0]), _oz(s1[1]), _oz(s2[0]), _oz(s2[1]), _oz(s2[2]), _oz(s2[3]),
-                 E.lst(out["g1s"], _ext), E.lst(out["g1s"], _fl), E.lst2(out["g2s"], _ext), E.lst2(out["g2s"], _fl)))
-    sq = _pairs(out["sq"])
-    parts.append("check_gdist_p %s %s %s %s %s None None None None None None %s %s %s %s" % (exact, cm, raw, q, sq, E.lst(out["p1"], _ext), E.lst(out["p1"], _fl),
+    if s1 != [None, None] or s2 != [None] * 4:
+        parts.append("check_gdist_g %s %s raw %s %s %s %s %s %s %s %s %s %s" % (exact, cm, _oz(s1[0]), _oz(s1[1]), _oz(s2[0]), _oz(s2[1]), _oz(s2[2]), _oz(s2[3]),
+                     E.lst(out["g1s"], _ext), E.lst(out["g1s"], _fl), E.lst2(out["g2s"], _ext), E.lst2(out["g2s"], _fl)))
+    parts.append("check_gdist_p %s %s raw q sq None None None None None None %s %s %s %s" % (exact, cm, E.lst(out["p1"], _ext), E.lst(out["p1"], _fl),
                  E.lst2(out["p2"], _ext), E.lst2(out["p2"], _fl)))
-    parts.append("check_gdist_p %s %s %s %s %s %s %s %s %s %s %s %s %s %s %s" % (exact, cm, raw, q, sq, _oz(q1[0]), _oz(q1[1]), _oz(q2[0]), _oz(q2[1]), _oz(q2[2]), _oz(q2[3]),
-                 E.lst(out["p1s"], _ext), E.lst(out["p1s"], _fl), E.lst2(out["p2s"], _ext), E.lst2(out["p2s"], _fl)))
+    if q1 != [None, None] or q2 != [None] * 4:
+        parts.append("check_gdist_p %s %s raw q sq %s %s %s %s %s %s %s %s %s %s" % (exact, cm, _oz(q1[0]), _oz(q1[1]), _oz(q2[0]), _oz(q2[1]), _oz(q2[2]), _oz(q2[3]),
+                     E.lst(out["p1s"], _ext), E.lst(out["p1s"], _fl), E.lst2(out["p2s"], _ext), E.lst2(out["p2s"], _fl)))
     gm = out["gm"]
-    parts.append("check_gmat %s %s %s %s %s %s %s %s %s %s %s" % (exact, cm, _kind(case["fn"]), raw, q, _pairs(list(zip(gm["chr"], gm["phy"]))),
-                 E.lst(gm["genpos"], _ext), E.lst(gm["genpos"], _fl), E.lst(gm["xoprob"], _ext), E.lst(out["gm_genpos_only"], _fl), E.b(out["ungrouped_raises"])))
+    binds.append(("gmf", "list float", E.lst(gm["genpos"], _fl)))
+    parts.append("check_gmat %s %s %s raw q %s %s gmf %s %s %s" % (exact, cm, _kind(case["fn"]),
+                 "sq" if [list(t) for t in zip(gm["chr"], gm["phy"])] == out["sq"] else _pairs(list(zip(gm["chr"], gm["phy"]))),
+                 E.lst(gm["genpos"], _ext), E.lst(gm["xoprob"], _ext),
+                 "gmf" if out["gm_genpos_only"] == gm["genpos"] else E.lst(out["gm_genpos_only"], _fl), E.b(out["ungrouped_raises"])))
     parts.append(E.b(out["inputs_unchanged"]))
-    return "(" + "\n   && ".join(parts) + ")"
+    head = "".join("let %s : %s := %s in\n   " % b for b in binds)
+    return "(" + head + "\n   && ".join(parts) + ")"
 
 # ----------------------------------------------------------------------------------------------- independent predicate
 def _close(a, b, tol=2.0 ** -36):
